@@ -483,8 +483,9 @@ class IdleRun:
     """One scenario: idling sessions (gated ones are paused inside every
     drain), writer sessions, a probe session that reads the ground truth."""
 
-    def __init__(self, env, gated: list[bool], n_writers: int = 1) -> None:
+    def __init__(self, env, gated: list[bool], n_writers: int = 1, pre=None) -> None:
         self.env = env
+        self.pre = list(pre or [])     # commands every idler issues itself before IDLE
         self.gated = list(gated)
         self.n_writers = n_writers
         self.idlers = []
@@ -527,6 +528,11 @@ class IdleRun:
             c = await self.env.login()
             await c.send(sel)
             self.idlers.append(c)
+        # the idlers' own history before IDLE (STORE, STORE.SILENT, FETCH, EXPUNGE ...)
+        self.pre_output = []
+        for c in self.idlers:
+            for k, cmd in enumerate(self.pre):
+                self.pre_output.append(await c.send(b'h%d ' % k + cmd + b'\r\n'))
         self.truths[0] = await self.truth()
         for c, g in zip(self.idlers, self.gated):
             await c.send(b'n NOOP\r\n')
